@@ -156,8 +156,8 @@ def scalar_kind(x) -> str:
 
     if isinstance(x, bool):
         return "bool"
-    if isinstance(x, np.float32):
-        return "f32"
+    if isinstance(x, (np.float32, np.float16)):
+        return "f32"          # "narrow" binary floats: numpy prints them with the digits that identify them at their own width
     if isinstance(x, (np.floating, float)):
         return "f64"
     if isinstance(x, (int, np.integer)):
@@ -188,7 +188,8 @@ def reads_back(text: str, x) -> bool:
     import numpy as np
 
     if scalar_kind(x) == "f32":
-        return bool(np.float32(text) == x)
+        with np.errstate(all="ignore"):
+            return bool(type(x)(text) == x)
     return float(text) == float(x)
 
 
@@ -200,7 +201,8 @@ def positional(d: Decimal) -> str:
 
 
 def _short_f32(x) -> str:
-    """shortest decimal that np.float32() reads back to x (both p-digit neighbours tried, nearest wins)"""
+    """shortest decimal that the scalar's own type (np.float32 / np.float16) reads back to x (both p-digit neighbours
+    tried, nearest wins)"""
     import numpy as np
 
     a = abs(Fraction(float(x)))
@@ -219,7 +221,7 @@ def _short_f32(x) -> str:
                 continue
             val = Fraction(c) / scale
             txt = positional(Decimal(val.numerator) / Decimal(val.denominator))
-            if np.float32(txt) == np.abs(x):
+            if type(x)(txt) == np.abs(x):
                 cands.append((abs(val - a), c % 2, txt))
         if cands:
             cands.sort()
